@@ -1,6 +1,6 @@
 (* C06 — Source addresses print to strings that parse back to the same address.
    Only statements, each closed by [exact] of a lemma proved elsewhere. *)
-From Slug Require Import Base.Str Base.PathAlg Addr.Resolve Addr.ResolveProofs Addr.Url Addr.Parse Addr.ParseProofs Addr.RoundTrip.
+From Slug Require Import Base.Str Base.PathAlg Addr.Resolve Addr.ResolveProofs Addr.Url Addr.Parse Addr.ParseProofs Addr.RoundTrip Addr.RoundTripFinal.
 
 (* ---- local addresses ---- *)
 (* a local address value is the text that was parsed: printing and parsing are inverse *)
@@ -37,6 +37,28 @@ Theorem C06_registry_package_round_trip :
   forall p, wf_mpkgb p = true -> parse_registry_pkg (mpkg_string p) = Ok p.
 Proof. exact registry_pkg_round_trip. Qed.
 Print Assumptions C06_registry_package_round_trip.
+
+(* ---- final registry addresses (package @ version [// sub-path]) ----
+   [wf_version]: numbers below 2^64, pre-release and build texts over [0-9A-Za-z.-]
+   (what ParseVersion returns; evaluated per run like wf_mpkgb).  The sub-path
+   must not contain '@' (known finding KF-C06-4), '?' (KF-C06-5) or a newline. *)
+Theorem C06_final_registry_round_trip :
+  forall p v sub, wf_mpkgb p = true -> ~ In c_nl (m_host p) -> wf_version v = true ->
+    valid_sub sub -> ~ In c_qmark sub -> ~ In c_at sub -> ~ In c_nl sub -> all_ascii sub = true ->
+    parse_final_registry (final_registry_string p v sub) = Ok (p, v, sub).
+Proof. exact final_registry_round_trip. Qed.
+Print Assumptions C06_final_registry_round_trip.
+
+(* printing and reading a version are inverse; decimal printing and reading are inverse *)
+Theorem C06_version_round_trip :
+  forall v, wf_version v = true -> parse_version (version_string v) = Some v.
+Proof. exact parse_version_printed. Qed.
+Print Assumptions C06_version_round_trip.
+
+Theorem C06_decimal_round_trip :
+  forall n, print_N n <> [] /\ forallb is_digit (print_N n) = true /\ digits_val (print_N n) = n.
+Proof. exact print_N_spec. Qed.
+Print Assumptions C06_decimal_round_trip.
 
 (* ---- remote, registry and final registry addresses: where the statement fails ----
    The full statement "every value prints to text that parses back to it" is
